@@ -79,6 +79,15 @@ where
             assert_eq!(res.n(), sk.n())
         }
 
+        // The plaintext limbs are added to the body as they are: they must be in the ciphertext's radix.
+        assert_eq!(
+            pt.base2k(),
+            res.base2k(),
+            "plaintext base2k: {} != ciphertext base2k: {}",
+            pt.base2k(),
+            res.base2k()
+        );
+
         assert!(
             scratch.available() >= self.lwe_encrypt_sk_tmp_bytes(res),
             "scratch.available(): {} < LWEEncryptSk::lwe_encrypt_sk_tmp_bytes: {}",
